@@ -2,6 +2,16 @@ import gfapy
 
 class Validation:
 
+  def _validate_record_type_specific_info(self):
+    for pfx in ["s_", "f_"]:
+      beg = self.get(pfx+"beg")
+      end = self.get(pfx+"end")
+      if gfapy.posvalue(beg) > gfapy.posvalue(end):
+        raise gfapy.ValueError(
+          "Line: {}\n".format(str(self))+
+          "{}beg > {}end: {} > {}".format(pfx, pfx, gfapy.posvalue(beg),
+                                        gfapy.posvalue(end)))
+
   def validate_positions(self):
     "Checks that positions suffixed by $ are the last position of segments"
     if self.is_connected():
